@@ -307,8 +307,10 @@ Fixpoint close_val (xs : list (name * attrib)) (vals : list value) : option valu
   | _ :: r => close_val r (tl vals)
   end.
 
+Definition ev_close : str := lit "__close".
+
 Definition closable (s : store) (v : value) : bool :=
-  match metamethod s v (lit "__close") with VNil => false | _ => true end.
+  match metamethod s v ev_close with VNil => false | _ => true end.
 
 Definition finish_list (c : cfg) (vals : list value) (ρ : env) (lk : listk) (k : list frame) : res :=
   match lk with
@@ -988,7 +990,7 @@ Definition step_exp (c : cfg) (e : exp) (ρ : env) (k : list frame) : res :=
    value and the error in flight (nil if none); the exit p resumes afterwards *)
 Definition close_scope (c : cfg) (v : value) (p : pend) (k : list frame) : res :=
   let e := match p with POut (OError e) => e | _ => VNil end in
-  match metamethod (sto c) v (lit "__close") with
+  match metamethod (sto c) v ev_close with
   | VNil => rterr c (lit "call") k
   | h => go c (CCall h [v; e] true) (KClosing p :: k)
   end.
